@@ -542,10 +542,16 @@ class JunctionCompartment(Compartment):
 
         # Finally, assign the inflow to the outflow proportionately accounting for the total outflow downscaling
         for frac, link in zip(outflow_fractions, self.outlinks):
-            if self.duration_group:
-                link._vals[:, ti] = net_inflow * frac / total_outflow
+            if total_outflow == 0:
+                # No outflow proportions at all: with nothing flowing in there is nothing to distribute (rather than 0*0/0=NaN),
+                # whereas people flowing in cannot be placed anywhere, which is flagged with NaN
+                flow = np.where(np.asarray(net_inflow) == 0, 0.0, np.nan)
             else:
-                link.vals[ti] = net_inflow * frac / total_outflow
+                flow = net_inflow * frac / total_outflow
+            if self.duration_group:
+                link._vals[:, ti] = flow
+            else:
+                link.vals[ti] = flow
 
     def initial_flush(self) -> None:
         """
